@@ -442,8 +442,25 @@ class Client(object):
         k = op[0]
         L = self.L
         if k == "iter":
-            self.its[op[1]] = [iter(self.target), 0, False, False]
+            self.its[op[1]] = [iter(self.target), 0, False, False, L]
             ctx.event(self.name, "iter", op[1])
+            return False
+        if k == "xiter":
+            # a live xafter() generator: advanced step by step like any other
+            # iterator, interleaved with the rest
+            _, h, ref, cnt, inc = op
+            if self.unbounded and cnt is None:
+                cnt = 12
+            if self.unbounded and not is_unbounded_safe(["xafter", ref, cnt,
+                                                         inc]):
+                return False
+            with K.mute():
+                want = model_answer(["xafter", ref, cnt, inc], L, self.base)
+            gen = self.target.xafter(resolve(ref, L, self.base), count=cnt,
+                                     inc=inc)
+            self.its[h] = [gen, 0, False, False, want]
+            ctx.event(self.name, "xiter", h, len(want))
+            ctx.probe("live_xafter_generator")
             return False
         if k in ("next", "drain", "close"):
             rec = self.its.get(op[1])
@@ -461,6 +478,8 @@ class Client(object):
             n = op[2] if k == "next" else None
             if k == "drain" and self.unbounded:
                 n = 25
+            L = rec[4]
+            bounded_model = self.unbounded and rec[4] is self.L
             got = 0
             while n is None or got < n:
                 if rec[3]:
@@ -470,7 +489,7 @@ class Client(object):
                 except StopIteration:
                     rec[3] = True
                     with K.mute():
-                        if rec[1] != len(L) or self.unbounded:
+                        if rec[1] != len(L) or bounded_model:
                             ctx.violation(
                                 "%s.iter_short" % self.prop,
                                 dict(task=self.name, handle=op[1],
@@ -489,7 +508,7 @@ class Client(object):
                 with K.mute():
                     pos = rec[1]
                     if pos >= len(L):
-                        if self.unbounded:
+                        if bounded_model:
                             # beyond the model bound: stop consuming
                             break
                         ctx.violation("%s.iter_long" % self.prop,
